@@ -166,10 +166,16 @@ class kFlowDecompCycles(walkmodel.AbstractWalkModelDiGraph):
         self.optimization_options["trusted_edges_for_safety"] = self.G.get_non_zero_flow_edges(flow_attr=self.flow_attr, edges_to_ignore=self.edges_to_ignore)
 
         # Call the constructor of the parent class AbstractPathModelDAG
-        # Build per-edge repetition upper bounds: use the edge flow when available,
-        # otherwise fall back to self.w_max (e.g., for source/sink helper edges).
+        # Build per-edge repetition upper bounds: use the edge flow when available.
+        # The flow value of an ignored edge (or a missing flow value) does not limit how often a walk traverses it:
+        # between two traversals of such an edge a walk needs to traverse some non-ignored edge (or one more edge),
+        # so the total non-ignored flow plus the number of edges is a safe bound.
+        free_edge_upper_bound = max(self.w_max, sum(
+            data[self.flow_attr] for u, v, data in self.G.edges(data=True)
+            if self.flow_attr in data and (u, v) not in self.edges_to_ignore
+        ) + self.G.number_of_edges())
         self.edge_upper_bounds_dict = {
-            (u, v): (data[self.flow_attr] if self.flow_attr in data else self.w_max)
+            (u, v): (data[self.flow_attr] if self.flow_attr in data and (u, v) not in self.edges_to_ignore else free_edge_upper_bound)
             for u, v, data in self.G.edges(data=True)
         }
         super().__init__(
